@@ -169,8 +169,84 @@ void run(Ctx &c) {
 	else c.nontrivial = rehash_with_entries && bracket_at_capacity;
 }
 
+// ---- arguments that refer into the map or into each other -------------------------------------
+// Key with observable lifetime whose move leaves the source changed (payload -1, another hash);
+// the value type carries its own key, so that m.insert(obj.name, std::move(obj)) passes a key that
+// refers into the value being moved.
+struct TKey : Tracked { TKey() = default; TKey(int x) : Tracked(x) {} };
+struct KH { int mode; uint64_t operator()(const TKey &k) const { int v = k.get(); return mode == 0 ? (uint64_t)(unsigned)v * 2654435761u : mode == 1 ? (uint64_t)(v & 3) : (uint64_t)(unsigned)v; } };
+struct Obj {
+	TKey name; Tracked extra;
+	Obj() = default;
+	Obj(int k, int e) : name(k), extra(e) {}
+};
+
+void run_alias(Ctx &c) {
+	using Map = frg::hash_map<TKey, Obj, KH, track_alloc>;
+	auto &t = c.t;
+	int mode = t.pick(3);
+	c.op("hash_map<TKey,Obj> hash-mode %d (aliasing arguments)", mode);
+	c.tag("alias-battery");
+	Map *m = c.make<Map>(KH{mode}, track_alloc{});
+	std::map<int, int> ref;
+	int nextv = 1;
+	bool removed_any = false; size_t maxsize = 0;
+	int fresh = 100;
+	auto absent = [&]() { for(int tries = 0; tries < 8; tries++) { int k = t.pick(24); if(!ref.count(k)) return k; } return fresh++; };
+	auto check_all = [&](const char *after) {
+		VCHECK(c, "C14", m->size() == ref.size(), "after %s: size() is %zu, reference has %zu", after, m->size(), ref.size());
+		for(int k = 0; k < fresh; k++) {
+			if(k == 24) k = 100;
+			TKey key(k);
+			Obj *g = m->get(key);
+			auto it = ref.find(k);
+			VCHECK(c, "C14", (g != nullptr) == (it != ref.end()), "after %s: get(%d) is %s", after, k, g ? "found, but the key is absent" : "null, but the key is present");
+			if(g) VCHECK(c, "C14", g->name.get() == k && g->extra.get() == it->second, "after %s: get(%d) yields the entry (%d, %d), reference value %d", after, k, g->name.get(), g->extra.get(), it->second);
+		}
+		std::map<int, int> seen; size_t n = 0;
+		for(auto it = m->begin(); !(it == m->end()); ++it) {
+			VCHECK(c, "C14", ++n <= ref.size(), "after %s: iteration yields more than %zu entries", after, ref.size());
+			int k = it->get<0>().get();
+			VCHECK(c, "C14", !seen.count(k), "after %s: iteration yields key %d twice", after, k);
+			VCHECK(c, "C14", it->get<1>().name.get() == k, "after %s: entry with key %d holds the value of key %d", after, k, it->get<1>().name.get());
+			seen[k] = it->get<1>().extra.get();
+		}
+		VCHECK(c, "C14", seen == ref, "after %s: iteration yields %zu entries that differ from the %zu reference entries", after, seen.size(), ref.size());
+		c.check_san("C14");
+		VTRACK_POLL(c);
+	};
+	unsigned nops = 1 + t.pick(40);
+	for(unsigned i = 0; i < nops && !t.done(); i++) {
+		unsigned op = t.pick(8);
+		const char *what = "the operation";
+		switch(op) {
+		case 0: case 1: { int k = absent(), e = nextv++; Obj o(k, e); c.op("insert(o.name, move(o)) with o = (%d, %d)", k, e); c.tag("key-inside-moved-value"); m->insert(o.name, std::move(o)); ref[k] = e; break; }
+		case 2: { int k = absent(), e = nextv++; const Obj o(k, e); c.op("insert(o.name, o) with o = (%d, %d)", k, e); m->insert(o.name, o); ref[k] = e; break; }
+		case 3: if(!ref.empty()) { int src = std::next(ref.begin(), t.pick(ref.size()))->first; int k = absent(); TKey sk(src); Obj *g = m->get(sk); if(!g) break;
+			c.op("insert(%d, copy of *get(%d)) (value refers into the map)", k, src); c.tag("value-inside-map");
+			Obj tmp(k, g->extra.get()); m->insert(TKey(k), tmp); ref[k] = ref[src]; break; }
+		case 4: if(!ref.empty()) { int src = std::next(ref.begin(), t.pick(ref.size()))->first; int k = absent(); TKey sk(src); Obj *g = m->get(sk); if(!g) break;
+			c.op("map[%d].extra = get(%d)->extra (operator[] may rehash)", k, src); c.tag("bracket-with-live-pointer");
+			const Tracked &e = g->extra; Obj &slot = (*m)[TKey(k)]; slot.name = TKey(k); slot.extra = e; ref[k] = ref[src]; break; }
+		case 5: if(!ref.empty()) { int k = std::next(ref.begin(), t.pick(ref.size()))->first; auto it = m->find(TKey(k)); if(it == m->end()) break;
+			c.op("remove(find(%d)->key) (the key argument lives in the entry being removed)", k); c.tag("remove-by-entry-key");
+			auto r = m->remove(it->get<0>()); VCHECK(c, "C14", (bool)r && r->extra.get() == ref[k], "remove through the entry's own key returned %s", r ? "another value" : "null_opt"); ref.erase(k); removed_any = true; break; }
+		case 6: if(!ref.empty()) { int k = std::next(ref.begin(), t.pick(ref.size()))->first; c.op("remove(%d)", k); auto r = m->remove(TKey(k)); VCHECK(c, "C14", (bool)r && r->extra.get() == ref[k] && r->name.get() == k, "remove(%d) returned %s", k, r ? "another value" : "null_opt"); ref.erase(k); removed_any = true; } break;
+		default: { unsigned n = 1 + t.pick(12); c.op("insert(o.name, move(o)) x%u", n); for(unsigned j = 0; j < n; j++) { int k = absent(), e = nextv++; Obj o(k, e); m->insert(o.name, std::move(o)); ref[k] = e; } break; }
+		}
+		maxsize = std::max(maxsize, ref.size());
+		check_all(what);
+	}
+	c.op("destroy with %zu entries", ref.size());
+	c.destroy(m);
+	VTRACK_END(c);
+	c.nontrivial = c.focus() == "C16" ? (removed_any && maxsize >= 2) : maxsize > 10;
+}
+
 } // namespace
 
 void verif_case(Ctx &c) {
-	if(c.t.pick(2) == 0 && c.focus() != "C16") run<int>(c); else run<Tracked>(c);
+	unsigned kind = c.t.pick(5);
+	if(kind == 4) run_alias(c);
+	else if(kind < 2 && c.focus() != "C16") run<int>(c); else run<Tracked>(c);
 }
